@@ -46,6 +46,8 @@ def check_entry(have, cls, term, pt, is_atomic):
     if not math.isfinite(have):
         return 'non-finite entry returned at a singular point', {'got': repr(have), 'spec_class': cls['cls']}
     c = cls['cls']
+    if c == 'any':
+        return None
     if c == 'fin':
         want = cls['q'][0] / cls['q'][1]
         if abs(have - want) > 1e-9 * (1 + abs(want)):
@@ -135,6 +137,7 @@ def observer(got, pred, sp, call, sg, prog, ctx, part):
 
 def run(report, tier):
     apirun.run_config(report, 'MC_C19', observer=observer, report_kinds=())
+    apirun.run_config(report, 'MC_C19R', observer=observer, report_kinds=(), tag='R', overrides=None if tier == 'quick' else {'MaxCalls': 2})
     return report.finish(
         rule='every Api program of <= 2 calls over the C19 signature (16 functions, powers 1/2, -1, 2, 3/2, -1/2, 3, 1, vector sums, norms, dot) '
              'with a scalar result: TLC evaluates value, first and second derivatives with extended arithmetic (Ext.tla) at every point that puts '
